@@ -27,7 +27,9 @@ CORR = "Spec.Walk.walk wstrict (through Model.RefWalkTie.walk6_obs; theorems Pro
 REASONS = {
     1: "a structural clause of the specification failed", 2: "a decoder rejected a structure / a read left the file",
     3: "an extent is empty or leaves the file", 4: "fuel exhausted",
-    10: "superblock: not decodable", 11: "superblock: driver information / extension / non-zero base address (not followed)",
+    5: "superblock extension: a message other than B-tree K / shared message table / file space info, or not decodable",
+    6: "superblock: non-zero base address (not followed)",
+    10: "superblock: not decodable", 11: "superblock: driver information block (not followed)",
     12: "object header v2: not decodable", 13: "object header v1: not decodable", 14: "shared message (not followed)",
     15: "object header v1: message count differs", 16: "a once-only message is repeated",
     17: "local heap: not decodable", 18: "symbol table node: not decodable", 19: "v1 B-tree node: not decodable",
